@@ -229,7 +229,13 @@ class CallMixin:
         if self.call_depth > 12:
             raise Unsupported("inlining depth exceeded at %s (recursive function needs a contract)" % qual, node)
         if qual in self.inline_stack:
-            raise Unsupported("recursive function %s needs a contract" % qual, node)
+            if self.mode != "UNROLL":
+                raise Unsupported("recursive function %s needs a contract" % qual, node)
+            if self.inline_stack.count(qual) >= self.rec_limit:
+                # unwinding assumption for recursion: deeper nesting is outside the explored bound
+                self.unwind_bounds.add((qual, getattr(node, "lineno", 0), self.rec_limit))
+                self.assume(z3.Not(zbool(self.live(st))), st)
+                return Val(TNone, self.S.none_val)
         self.inlined.add(qual)
         live = self.live(st)
         sub = st.copy()
@@ -281,6 +287,12 @@ class CallMixin:
     def call_by_contract(self, qual, c, env, st, node=None):
         self.called_by_contract.add(qual)
         line = getattr(node, "lineno", 0)
+        # keyword extras (**kwargs) are visible to the contract as kw_<name>
+        for p, t in c.types.items():
+            if p.startswith("kw_") and p not in env:
+                kwv = [v for k2, v in env.items() if v is not None and v.ty.kind == "Kwargs"]
+                passed = kwv[0].py if kwv else {}
+                env[p] = passed[p[3:]] if p[3:] in passed else self.fresh_val(t, "absent_" + p)
         # coerce arguments to declared types
         for p, t in c.types.items():
             if p in env and env[p].ty.kind not in SPECIAL_KINDS:
